@@ -166,7 +166,7 @@ func NewVars() *Vars {
 	r := NewRenamer()
 	for _, c := range v.all() {
 		c.R = r
-		c.S = "-"
+		c.S = ""
 	}
 	return v
 }
@@ -181,21 +181,21 @@ var varNames = []string{"A", "B", "C", "D", "E", "F", "G", "H", "K", "L", "N", "
 func (v *Vars) String() string {
 	var parts []string
 	for i, c := range v.all() {
-		if c.S != "-" {
+		if c.S != "" {
 			parts = append(parts, varNames[i]+"="+c.S)
 		}
 	}
 	return strings.Join(parts, " ")
 }
 
-// Get returns the canonical text bound to a variable name ("-" if not scanned).
+// Get returns the canonical text bound to a variable name ("" if not scanned).
 func (v *Vars) Get(name string) string {
 	for i, n := range varNames {
 		if n == name {
 			return v.all()[i].S
 		}
 	}
-	return "-"
+	return ""
 }
 
 // CanonErr renders an error: the formal part of an Exception's term, else go:<text class>.
